@@ -379,6 +379,19 @@ func runC21(r *core.R) {
 			return one(out, err)
 		}},
 	}
+	formDocs := [][]byte{docgen.FormDoc("flat-own-da"), docgen.FormDoc("nested-inherit-da"), form.Bytes()}
+	for i, fd := range formDocs[:2] {
+		if err := api.Validate(bytes.NewReader(fd), newConf()); err != nil {
+			r.HarnessError("hand-built form %d does not validate: %v", i, err)
+			return
+		}
+		inputs = append(inputs, input{fmt.Sprintf("handbuilt-form-%d", i), fd})
+	}
+	formOps = append(formOps, vop{"merge-forms", 9, "", func(d string, in []byte, v int) ([][]byte, error) {
+		var out bytes.Buffer
+		err := api.MergeRaw([]io.ReadSeeker{bytes.NewReader(formDocs[v/3]), bytes.NewReader(formDocs[v%3])}, &out, false, newConf())
+		return one(out.Bytes(), err)
+	}})
 	r.Note("inputs", len(inputs))
 	r.Note("operations", len(ops)+len(formOps))
 	type job struct {
